@@ -193,6 +193,19 @@ def gen_C03(w, tier):
                       tags=("set:" + name, "long-inputs"), mode=EXACT, msg_mode=EXACT)
         sc.pred = pred_len
         out.append(sc)
+    # a long run of rejected draws before the accepted one (integer groups)
+    for name in ("1024", "toy2039_1019_4"):
+        ps = w.ps.get(name)
+        if ps is None:
+            continue
+        sc = w.scenario("C03/%s/many-redraws" % name, ("set:" + name, "many-redraws"))
+        a = sc.new("A", ps, b"pw", b"", b"", w.entropy_for(ps, 7, redraws=150))
+        b = sc.new("B", ps, b"pw", b"", b"", w.entropy_for(ps, 9, redraws=3))
+        ma, mb = payload(sc.start(a)), payload(sc.start(b))
+        if ma and mb:
+            sc.finish(a, mb)
+            sc.finish(b, ma)
+        out.append(sc)
     # default parameter set (no params= argument)
     for i in range(3 if tier == "quick" else 20):
         sc = w.scenario("C03/default/%d" % i, ("set:default",))
